@@ -24,13 +24,25 @@ Lemma rat_try_as_usize_spec : forall q k,
 Proof.
   intros q k. unfold rat_try_as_usize.
   destruct (Z.ltb_spec (Qnum q) 0) as [Hneg|Hnn]; [discriminate|].
-  destruct (Pos.eqb_spec (Qden (Qred q)) 1) as [Hd|Hd]; simpl; [|discriminate].
-  destruct (N.ltb_spec (Z.to_N (Qnum (Qred q))) usize_limit) as [Hlt|Hge]; [|discriminate].
-  intros H. injection H as <-. split; [|exact Hlt].
-  pose proof (Qred_correct q) as Hq.
-  unfold Qeq in *. simpl. rewrite Hd in Hq.
-  assert (0 <= Qnum (Qred q))%Z by nia.
-  rewrite Z2N.id by assumption. lia.
+  set (n := Z.to_N (Qnum q)). set (d := Npos (Qden q)).
+  assert (Hn : Z.of_N n = Qnum q) by (unfold n; now rewrite Z2N.id).
+  destruct (N.eqb_spec d 1) as [Hd1|Hd1].
+  - destruct (N.ltb_spec n usize_limit) as [Hlt|Hge]; [|discriminate].
+    intro H. injection H as <-. split; [|exact Hlt].
+    unfold Qeq, inject_Z. simpl. unfold d in Hd1. injection Hd1 as Hd1. rewrite Hd1, Hn. lia.
+  - set (g := N.gcd n d).
+    destruct (N.eqb_spec (d / g) 1) as [Hdg|Hdg]; simpl; [|discriminate].
+    destruct (N.ltb_spec (n / g) usize_limit) as [Hlt|Hge]; [|discriminate].
+    intro H. injection H as <-. split; [|exact Hlt].
+    assert (Hg0 : g <> 0%N).
+    { unfold g. intro Hc. apply N.gcd_eq_0_r in Hc. unfold d in Hc. discriminate. }
+    destruct (N.gcd_divide_r n d) as [c Hc]. fold g in Hc.
+    destruct (N.gcd_divide_l n d) as [c' Hc']. fold g in Hc'.
+    assert (Hdg' : (d / g = c)%N) by (rewrite Hc; apply N.div_mul; exact Hg0).
+    assert (Hng : (n / g = c')%N) by (rewrite Hc' at 1; apply N.div_mul; exact Hg0).
+    rewrite Hng. rewrite Hdg' in Hdg. subst c. rewrite N.mul_1_l in Hc.
+    unfold Qeq, inject_Z. simpl. rewrite <- Hn, Hc'.
+    change (Z.pos (Qden q)) with (Z.of_N d). rewrite Hc. rewrite N2Z.inj_mul. lia.
 Qed.
 
 (* ------------------------------------------------------------------ *)
@@ -143,11 +155,14 @@ Qed.
 Lemma sin_pi_table_zero : forall n, (n == 0)%Q -> sin_pi_table n = Some 0%Q.
 Proof.
   intros n Hn. unfold sin_pi_table, rat_try_as_usize.
-  assert (H6 : (n * 6 == 0)%Q) by (rewrite Hn; reflexivity).
   assert (Hnum : Qnum (n * 6) = 0%Z).
-  { unfold Qeq in H6. simpl in H6. simpl. lia. }
-  rewrite Hnum. simpl (0 <? 0)%Z. cbv iota.
-  rewrite (Qred_complete _ _ H6). reflexivity.
+  { unfold Qeq in Hn. simpl in Hn. simpl. lia. }
+  rewrite Hnum. simpl (0 <? 0)%Z. cbv iota. simpl (Z.to_N 0).
+  set (d := N.pos (Qden (n * 6))).
+  destruct (N.eqb_spec d 1); [reflexivity|].
+  rewrite N.gcd_0_l. rewrite N.div_same by (unfold d; discriminate).
+  simpl (negb (1 =? 1)%N). cbv iota.
+  rewrite N.div_0_l by (unfold d; discriminate). reflexivity.
 Qed.
 
 Lemma rat_fn_sin_exact : forall Fo q v,
@@ -202,6 +217,33 @@ Proof.
   intros q H. apply Z.eqb_eq in H. unfold Q2R. rewrite H. lra.
 Qed.
 
+Lemma rat_add_correct : forall a b, (rat_add a b == a + b)%Q.
+Proof.
+  intros [na da] [nb db]. unfold rat_add. simpl Qden. simpl Qnum.
+  destruct (Pos.eqb_spec da db) as [He|Hne].
+  - subst db. unfold Qeq, Qplus. simpl. rewrite !Pos2Z.inj_mul. ring.
+  - set (g := Z.gcd (Z.pos da) (Z.pos db)).
+    assert (Hgpos : (0 < g)%Z).
+    { unfold g. pose proof (Z.gcd_nonneg (Z.pos da) (Z.pos db)).
+      assert (g <> 0)%Z; [|unfold g in *; lia].
+      unfold g. intro Hc. apply Z.gcd_eq_0_l in Hc. discriminate. }
+    destruct (Z.gcd_divide_l (Z.pos da) (Z.pos db)) as [a' Ha]. fold g in Ha.
+    destruct (Z.gcd_divide_r (Z.pos da) (Z.pos db)) as [b' Hb]. fold g in Hb.
+    assert (Ha' : (0 < a')%Z) by nia. assert (Hb' : (0 < b')%Z) by nia.
+    assert (H1 : (na * Z.pos db / g = na * b')%Z).
+    { rewrite Hb, Z.mul_assoc. apply Z.div_mul. lia. }
+    assert (H2 : (nb * Z.pos da / g = nb * a')%Z).
+    { rewrite Ha, Z.mul_assoc. apply Z.div_mul. lia. }
+    assert (H3 : (Z.pos da * Z.pos db / g = Z.pos da * b')%Z).
+    { rewrite Hb. rewrite Z.mul_assoc. apply Z.div_mul. lia. }
+    rewrite H1, H2, H3.
+    assert (Hm : (0 < Z.pos da * b')%Z) by (apply Z.mul_pos_pos; lia).
+    set (m := (Z.pos da * b')%Z) in *.
+    unfold Qeq, Qplus. cbn [Qnum Qden].
+    rewrite Z2Pos.id by exact Hm. unfold m.
+    rewrite Pos2Z.inj_mul, Ha, Hb. ring.
+Qed.
+
 Theorem cos_pi_exact_sound : forall Fo n v,
   real_cos Fo (RPi n) = Ok (mkEx v true) -> real_val v = cos (Q2R n * PI).
 Proof.
@@ -211,6 +253,7 @@ Proof.
     rewrite (real_is_zero_spec _ Hz), Q2R_half.
     rewrite cos_sin. f_equal. lra.
   - intro H. apply sin_pi_exact_sound in H. rewrite H.
+    rewrite (Qeq_eqR _ _ (rat_add_correct n (1 # 2))).
     rewrite Q2R_plus, Q2R_half. rewrite cos_sin. f_equal. lra.
 Qed.
 
@@ -225,9 +268,10 @@ Proof.
   - intro H. apply sin_pi_exact_sound in H. rewrite H.
     rewrite (real_is_zero_spec _ Hz), Q2R_half, cos_sin. f_equal. lra.
   - intro H. unfold real_sin in H.
-    destruct (rat_fn Fo Fsin (a + (1 # 2) * pi_model)) as [w| |] eqn:Hw; simpl in H; try discriminate.
+    destruct (rat_fn Fo Fsin (rat_add a ((1 # 2) * pi_model))) as [w| |] eqn:Hw; simpl in H; try discriminate.
     injection H as Hv He.
-    destruct (rat_fn_sin_exact _ _ _ Hw He) as [Hz0 _]. contradiction.
+    destruct (rat_fn_sin_exact _ _ _ Hw He) as [Hz0 _].
+    rewrite rat_add_correct in Hz0. contradiction.
 Qed.
 
 (* ------------------------------------------------------------------ *)
@@ -246,22 +290,39 @@ Qed.
 Definition good_residue (k : N) : bool :=
   negb ((k mod 12 =? 2) || (k mod 12 =? 4) || (k mod 12 =? 8) || (k mod 12 =? 10))%N.
 
-Lemma sin_pi_table_hit : forall k : N, (k < 2 ^ 64)%N -> good_residue k = true ->
-  forall n, (n == Z.of_N k # 6)%Q -> exists t, sin_pi_table n = Some t.
+Lemma try_as_usize_hit : forall n (k : N),
+  (k < 2 ^ 64)%N -> (n == Z.of_N k # 6)%Q ->
+  rat_try_as_usize (n * 6) = Some k.
 Proof.
-  intros k Hk Hg n Hn. unfold sin_pi_table, rat_try_as_usize.
-  assert (H6 : (n * 6 == inject_Z (Z.of_N k))%Q).
-  { rewrite Hn. unfold Qeq, inject_Z. simpl. lia. }
-  assert (Hnn : (Qnum (n * 6) <? 0)%Z = false).
-  { apply Z.ltb_ge. unfold Qeq, inject_Z in H6. simpl in H6. simpl.
-    assert (0 <= Qnum n * 6 * 1)%Z by (rewrite H6; lia). lia. }
-  rewrite Hnn.
-  rewrite (Qred_complete _ _ H6).
-  assert (Hid : Qred (inject_Z (Z.of_N k)) = inject_Z (Z.of_N k)).
-  { apply Qred_inject_Z. }
-  rewrite Hid. simpl Qden. simpl Qnum. rewrite N2Z.id.
-  simpl (negb (Pos.eqb 1 1)). cbv iota.
-  destruct (N.ltb_spec k usize_limit) as [_|Hge]; [|unfold usize_limit in Hge; lia].
+  intros n k Hk Hn. unfold rat_try_as_usize.
+  assert (Hnum : Qnum (n * 6) = (Qnum n * 6)%Z) by reflexivity.
+  assert (Hden : Qden (n * 6) = Qden n) by (simpl; apply Pos.mul_1_r).
+  rewrite Hnum, Hden.
+  assert (Hnn : (0 <= Qnum n * 6)%Z).
+  { unfold Qeq in Hn. simpl in Hn. nia. }
+  destruct (Z.ltb_spec (Qnum n * 6) 0) as [Hc|_]; [lia|].
+  set (N6 := Z.to_N (Qnum n * 6)). set (d := N.pos (Qden n)).
+  assert (HN6 : N6 = (k * d)%N).
+  { unfold N6, d. unfold Qeq in Hn. simpl in Hn.
+    apply N2Z.inj. rewrite Z2N.id by lia. rewrite N2Z.inj_mul. simpl Z.of_N at 2. lia. }
+  assert (Hd0 : d <> 0%N) by (unfold d; discriminate).
+  assert (Hk' : (k < usize_limit)%N) by exact Hk.
+  destruct (N.eqb_spec d 1) as [Hd1|Hd1].
+  - rewrite HN6, Hd1, N.mul_1_r. destruct (N.ltb_spec k usize_limit); [reflexivity|lia].
+  - assert (Hgcd : N.gcd N6 d = d).
+    { rewrite HN6. rewrite N.gcd_comm, (N.mul_comm k d). apply N.gcd_mul_diag_l. apply N.le_0_l. }
+    rewrite Hgcd. rewrite N.div_same by exact Hd0.
+    simpl (negb (1 =? 1)%N). cbv iota.
+    rewrite HN6, N.div_mul by exact Hd0.
+    destruct (N.ltb_spec k usize_limit); [reflexivity|lia].
+Qed.
+
+Lemma sin_pi_table_hit : forall n (k : N),
+  (k < 2 ^ 64)%N -> (n == Z.of_N k # 6)%Q -> good_residue k = true ->
+  exists t, sin_pi_table n = Some t.
+Proof.
+  intros n k Hk Hn Hg. unfold sin_pi_table.
+  rewrite (try_as_usize_hit n k Hk Hn).
   unfold good_residue in Hg.
   pose proof (mod12_cases k) as Hlt.
   assert (Hm6 : (k mod 6 = (k mod 12) mod 6)%N).
@@ -275,13 +336,13 @@ Proof.
   repeat (destruct Hr as [Hr|Hr]); subst r; try discriminate Hg; vm_compute; eexists; reflexivity.
 Qed.
 
-Theorem sin_special_lemma : forall Fo (z : Z),
-  (Z.abs z < 2 ^ 64)%Z -> good_residue (Z.abs_N z) = true ->
-  forall n, (n == z # 6)%Q ->
+Theorem sin_special_lemma : forall Fo (z : Z) (n : Q),
+  (Z.abs z < 2 ^ 64)%Z -> (n == z # 6)%Q ->
+  good_residue (Z.abs_N z) = true ->
   exists v, real_sin Fo (RPi n) = Ok (mkEx (RSimple v) true)
             /\ Q2R v = sin (IZR z * PI / 6).
 Proof.
-  intros Fo z Hz Hg n Hn.
+  intros Fo z n Hz Hn Hg.
   assert (Hex : exists v, real_sin Fo (RPi n) = Ok (mkEx (RSimple v) true)).
   { unfold real_sin.
     set (neg := qlt n 0). set (n' := if neg then (- n)%Q else n).
@@ -291,12 +352,20 @@ Proof.
         unfold Qlt in Hneg. simpl in Hneg. unfold Qeq. simpl. lia.
       - assert (~ (n < 0)%Q) by (intro Hc; apply qlt_spec in Hc; congruence).
         rewrite Hn in *. unfold Qlt in H. simpl in H. unfold Qeq. simpl. lia. }
-    destruct (sin_pi_table_hit (Z.abs_N z)) with (n := n') as [t Ht]; try assumption.
+    destruct (sin_pi_table_hit n' (Z.abs_N z)) as [t Ht]; try assumption.
     { apply N2Z.inj_lt. rewrite N2Z.inj_abs_N. exact Hz. }
     rewrite Ht. eexists. reflexivity. }
   destruct Hex as [v Hv]. exists v. split; [exact Hv|].
   apply sin_pi_exact_sound in Hv. simpl in Hv. rewrite Hv.
   rewrite (Qeq_eqR _ _ Hn). unfold Q2R. simpl. f_equal. lra.
+Qed.
+
+Lemma rat_add_sixth_half : forall z : Z, rat_add (z # 6) (1 # 2) = (z + 3 # 6)%Q.
+Proof.
+  intro z. unfold rat_add. cbn [Qnum Qden Pos.eqb].
+  change (Z.gcd 6 2) with 2%Z. change (1 * 6 / 2)%Z with 3%Z.
+  change (Z.to_pos (6 * 2 / 2)) with 6%positive.
+  rewrite Z.div_mul by lia. reflexivity.
 Qed.
 
 Theorem cos_special_lemma : forall Fo (z : Z),
@@ -309,11 +378,11 @@ Proof.
   { unfold real_cos, Model.cos_shift. simpl real_is_zero.
     destruct (z =? 0)%Z eqn:Hz0.
     - apply Z.eqb_eq in Hz0. subst z.
-      destruct (sin_special_lemma Fo 3 ltac:(lia) ltac:(reflexivity) (1 # 2)%Q ltac:(reflexivity))
+      destruct (sin_special_lemma Fo 3 (1 # 2)%Q ltac:(simpl; lia) ltac:(reflexivity) ltac:(reflexivity))
         as [v [Hv _]].
       exists v. exact Hv.
-    - destruct (sin_special_lemma Fo (z + 3) Hz Hg ((z # 6) + (1 # 2))%Q) as [v [Hv _]].
-      { unfold Qeq. simpl. lia. }
+    - rewrite rat_add_sixth_half.
+      destruct (sin_special_lemma Fo (z + 3) (z + 3 # 6)%Q Hz ltac:(reflexivity) Hg) as [v [Hv _]].
       exists v. exact Hv. }
   destruct Hex as [v Hv]. exists v. split; [exact Hv|].
   apply cos_pi_exact_sound in Hv. simpl in Hv. rewrite Hv.
